@@ -157,8 +157,42 @@ def relabel_part(ctx, count):
             ctx.nontriv(("relabel", basis, relabel, how))
 
 
+def two_models_part(ctx, count):
+    """several models alive at once, each built with the defaults: training one of them must not change what another predicts"""
+    from pysensors.classification import SSPOC
+    from sklearn.base import clone
+    rng = ctx.rng
+    for idx in range(count):
+        Xa, ya = models.gen_classification(rng, n_classes=rng.choice([2, 3]), n_features=rng.randint(3, 7), per_class=rng.randint(5, 8))
+        Xb, yb = models.gen_classification(rng, n_classes=rng.choice([2, 3]), n_features=rng.choice([Xa.shape[1], rng.randint(3, 7)]), per_class=rng.randint(5, 8))
+        ctx.evaluations += 1
+        ctx.count("two_default_models")
+        try:
+            A = SSPOC(n_sensors=rng.randint(1, Xa.shape[1]))
+            Bm = SSPOC(n_sensors=rng.randint(1, Xb.shape[1]))
+            A.fit(Xa.copy(), ya.copy(), quiet=True)
+            selA = np.array(A.selected_sensors).astype(int)
+            before = np.asarray(A.predict(Xa[:, selA]))
+            Bm.fit(Xb.copy(), yb.copy(), quiet=True)
+            if rng.random() < 0.5:
+                Bm.update_sensors(n_sensors=1, xy=(Xb.copy(), yb.copy()), quiet=True)
+            after = np.asarray(A.predict(Xa[:, selA]))
+            ref = clone(A.classifier).fit(Xa[:, selA], ya).predict(Xa[:, selA])
+        except Exception as e:
+            ctx.violation("concrete", f"model A fails after another default-constructed model was trained: {type(e).__name__}: {e}",
+                          {"signature": "stale-classifier:shared-between-models", "Xa": Xa.tolist(), "ya": ya.tolist(), "Xb": Xb.tolist(), "yb": yb.tolist(), "index": idx})
+            continue
+        if not np.array_equal(before, after) or not np.array_equal(after, ref):
+            ctx.violation("concrete", "training a second default-constructed SSPOC changed the predictions of the first (its classifier is no longer "
+                                      "the one of its own most recent fit)",
+                          {"signature": "stale-classifier:shared-between-models", "Xa": Xa.tolist(), "ya": ya.tolist(), "Xb": Xb.tolist(), "yb": yb.tolist(), "index": idx})
+        else:
+            ctx.nontriv(("two-models", Xa.shape, Xb.shape))
+
+
 def run(ctx: C.Ctx):
     relabel_part(ctx, ctx.scale(30, 300))
+    two_models_part(ctx, ctx.scale(20, 200))
     rng = ctx.rng
     todo = []
     import glob, json
@@ -211,6 +245,9 @@ def run(ctx: C.Ctx):
 
 
 def replay(ctx: C.Ctx, payload):
+    if "Xa" in payload["data"]:
+        print("# deterministic case: re-run ./check C09 (two default-constructed models)")
+        return
     if "relabel_case" in payload["data"]:
         from pysensors.classification import SSPOC
         d = payload["data"]["relabel_case"]
